@@ -269,3 +269,76 @@ PROPS["C05"] = {
     "trusted": ["Base/PathLex.v model of std::path; process environment as a finite map; std::env::current_dir returns the directory set by set_current_dir"],
     "assumptions": ["cwd is a clean absolute path (Memfs: invariant of set_cwd; Stdfs: the kernel's getcwd)", "paths and environment values are valid UTF-8"],
 }
+
+
+# ---------------------------------------------------------------------------------------------
+XDG_VARS = ["HOME", "XDG_CONFIG_HOME", "XDG_CONFIG_DIRS", "XDG_DATA_HOME", "XDG_DATA_DIRS", "XDG_CACHE_HOME",
+            "XDG_STATE_HOME", "XDG_RUNTIME_DIR", "PATH", "SUDO_UID", "SUDO_GID"]
+XDG_FNS = ["config_dir", "cache_dir", "data_dir", "state_dir", "runtime_dir", "sys_config_dirs", "sys_data_dirs", "path_dirs"]
+
+
+def c18_streams(tier, rng, ctx):
+    single = [None, "", "/x/cfg", "rel", "/ü/é"]
+    lists = [None, "", "/a", "/a::/b:", "::", "/a:/b:/c", ":/z"]
+    nums = [None, "", "1000", "+7", "abc", "4294967295", "4294967296", "-1", "12 "]
+    dom = {"HOME": [None, "/home/u", "", "/h/", "h"], "XDG_CONFIG_HOME": single, "XDG_CONFIG_DIRS": lists,
+           "XDG_DATA_HOME": single, "XDG_DATA_DIRS": lists, "XDG_CACHE_HOME": single, "XDG_STATE_HOME": single,
+           "XDG_RUNTIME_DIR": [None, "", "/run/user/1"], "PATH": lists, "SUDO_UID": nums, "SUDO_GID": nums}
+    nconf = 300 if tier == "quick" else 3000
+    confs = []
+    # each value of each variable with the others random (covers all singles), plus random products
+    for var, vals in dom.items():
+        for v in vals:
+            c = {k: rng.choice(vs) for k, vs in dom.items()}
+            c[var] = v
+            confs.append(c)
+    while len(confs) < nconf:
+        confs.append({k: rng.choice(vs) for k, vs in dom.items()})
+    groups = []
+    for c in confs:
+        es = envspec(c)
+        lines = ["\t".join(["xdg", es, fn]) for fn in XDG_FNS]
+        for uid, gid in [(0, 0), (0, 5), (1000, 1000), (1, 0)]:
+            lines.append("\t".join(["getrids", es, str(uid), str(gid)]))
+        groups.append((dict(c), lines))
+    sts = [Stream("xdg-env", "mirror", None, groups=groups, judge=lambda l, o: True,
+                  nontrivial=lambda l, o: True,
+                  rule="%d environment configurations (every listed value of every variable at least once, the rest random), one process each; all 8 lookup functions + getrids" % len(confs))]
+    # vfs.config_dir(name): which candidate directories contain the file
+    sb = os.path.normpath(os.path.join(ctx["work"], "..", "..", "sb", "c18"))
+    gm, gs = [], []
+    name = "app.toml"
+    cands = ["/c/home", "/etc/xdg", "/d1", "/d2", "/ü"]
+    k = 0
+    for home_set in [True, False]:
+        for dirs in [None, "", "/d1:/d2", "/d2::/d1:", "/etc/xdg:/c/home:/ü", "/c/home"]:
+            for r in range(len(cands) + 1):
+                for sub in itertools.combinations(cands, r):
+                    k += 1
+                    env = {v: None for v in XDG_VARS}
+                    env["HOME"] = "/c" if home_set else None
+                    env["XDG_CONFIG_HOME"] = "/c/home" if home_set and r % 2 == 0 else None
+                    env["XDG_CONFIG_DIRS"] = dirs
+                    if not home_set:
+                        env["XDG_CONFIG_HOME"] = "/c/home" if r % 2 else None
+                    files = [d + "/" + name for d in sub]
+                    gm.append((dict(env), ["\t".join(["vfs_config_dir_m", envspec(env), hx(name), ",".join(hx(x) for x in files)])]))
+                    if k % 5 == 0:
+                        root = "%s/%d" % (sb, k)
+                        env2 = {kk: (None if v is None else ":".join((root + p) if p else p for p in v.split(":"))) for kk, v in env.items()}
+                        files2 = [root + x for x in files]
+                        gs.append((env2, ["\t".join(["vfs_config_dir_s", envspec(env2), hx(name), ",".join(hx(x) for x in files2)])]))
+    sts.append(Stream("vfs-config-dir-memfs", "mirror", None, groups=gm, judge=lambda l, o: True, exhaustive=True,
+                      rule="Memfs::config_dir: subsets of candidate directories containing the file x settings of HOME / XDG_CONFIG_HOME / XDG_CONFIG_DIRS"))
+    sts.append(Stream("vfs-config-dir-stdfs", "mirror", None, groups=gs, judge=lambda l, o: True,
+                      rule="Stdfs::config_dir on a sandbox (XDG_* pointing under it)"))
+    return sts
+
+
+PROPS["C18"] = {
+    "streams": c18_streams,
+    "rule": "environment configurations over HOME, XDG_*, PATH, SUDO_* with values {unset, empty, single, lists with empty segments, ...}, one harness process per configuration; "
+            "for config_dir(name) the subsets of candidate directories that contain the file, on Memfs and on a Stdfs sandbox; distinct = distinct (configuration, call)",
+    "trusted": ["process environment as a finite map", "tools/translators.py gen_consts (variable names and defaults lifted from src/sys/user.rs into Gen/Consts.v)"],
+    "assumptions": ["environment = finite map string -> string", "std u32::from_str = optional '+', decimal digits, value <= 2^32-1"],
+}
